@@ -1,7 +1,37 @@
 use std::error::Error;
+#[cfg(not(locustdb_verif))]
 use std::fs::{create_dir_all, File};
+#[cfg(locustdb_verif)]
+use locustdb_simrt::fs::{create_dir_all, File};
 use std::io::{Read, Write};
 use std::path::{Path, PathBuf};
+
+// File system calls go through this seam so that a simulated disk can be substituted (cfg locustdb_verif).
+#[cfg(not(locustdb_verif))]
+mod fsx {
+    use std::path::{Path, PathBuf};
+    pub fn rename(from: &Path, to: &Path) -> std::io::Result<()> {
+        std::fs::rename(from, to)
+    }
+    pub fn remove_file(path: &Path) -> std::io::Result<()> {
+        std::fs::remove_file(path)
+    }
+    pub fn exists(path: &Path) -> bool {
+        path.exists()
+    }
+    /// Directory entries as (path, is_file)
+    pub fn read_dir(
+        path: &Path,
+    ) -> std::io::Result<impl Iterator<Item = std::io::Result<(PathBuf, bool)>>> {
+        Ok(path.read_dir()?.map(|entry| {
+            let path = entry?.path();
+            let is_file = path.is_file();
+            Ok((path, is_file))
+        }))
+    }
+}
+#[cfg(locustdb_verif)]
+use locustdb_simrt::fs as fsx;
 
 pub trait BlobWriter: Send + Sync {
     fn store(&self, path: &Path, data: &[u8])
@@ -122,7 +152,7 @@ impl BlobWriter for FileBlobWriter {
         let mut file = File::create(&tmp_path)?;
         file.write_all(data)?;
         file.sync_all()?;
-        std::fs::rename(tmp_path, path).map_err(|e| format!("Failed to rename file: {}", e))?;
+        fsx::rename(&tmp_path, path).map_err(|e| format!("Failed to rename file: {}", e))?;
 
         Ok(())
     }
@@ -135,18 +165,17 @@ impl BlobWriter for FileBlobWriter {
     }
 
     fn delete(&self, path: &Path) -> Result<(), Box<dyn Error + Send + Sync + 'static>> {
-        std::fs::remove_file(path)?;
+        fsx::remove_file(path)?;
         Ok(())
     }
 
     fn list(&self, path: &Path) -> Result<Vec<PathBuf>, Box<dyn Error + Send + Sync + 'static>> {
         let mut entries = Vec::new();
-        match path.read_dir() {
+        match fsx::read_dir(path) {
             Ok(paths) => {
                 for entry in paths {
-                    let entry = entry?;
-                    let path = entry.path();
-                    if path.is_file() {
+                    let (path, is_file) = entry?;
+                    if is_file {
                         entries.push(path);
                     }
                 }
@@ -163,6 +192,6 @@ impl BlobWriter for FileBlobWriter {
     }
 
     fn exists(&self, path: &Path) -> Result<bool, Box<dyn Error + Send + Sync + 'static>> {
-        Ok(path.exists())
+        Ok(fsx::exists(path))
     }
 }
